@@ -30,6 +30,8 @@ type fakeRT struct {
 	log      []string // addresses calls were sent to
 	closed   bool
 	delay    map[string]time.Duration // how long a call to the address takes (spun, not slept: the harness's quiescence test treats sleepers as blocked)
+	hold     map[string]bool          // calls to the address are held in flight until the harness releases them with their outcome
+	callGate gate
 }
 
 func (f *fakeRT) up(addr string) bool {
@@ -43,7 +45,14 @@ func (f *fakeRT) record(addr string) error {
 	f.log = append(f.log, addr)
 	up := f.health[addr]
 	d := f.delay[addr]
+	held := f.hold[addr]
 	f.mu.Unlock()
+	if held {
+		if r := f.callGate.enter(addr, nil); r != nil {
+			return r.(error)
+		}
+		return nil
+	}
 	for t0 := time.Now(); d > 0 && time.Since(t0) < d; {
 	}
 	if !up {
@@ -119,7 +128,7 @@ var schedCoq = map[rpc.Scheduling]string{rpc.RoundRobinScheduling: "RoundRobin",
 func newLBRun(e *Env, sched rpc.Scheduling) *lbRun { return newLBRunN(e, sched, 5) }
 
 func newLBRunN(e *Env, sched rpc.Scheduling, naddr int) *lbRun {
-	r := &lbRun{e: e, sched: sched, rt: &fakeRT{health: map[string]bool{}, delay: map[string]time.Duration{}}, pingGen: map[*waiter]int{}, current: map[string]bool{}}
+	r := &lbRun{e: e, sched: sched, rt: &fakeRT{health: map[string]bool{}, delay: map[string]time.Duration{}, hold: map[string]bool{}}, pingGen: map[*waiter]int{}, current: map[string]bool{}}
 	for i := 0; i < naddr; i++ {
 		r.addrs = append(r.addrs, fmt.Sprintf("t%d", i+1))
 	}
@@ -229,6 +238,15 @@ func (r *lbRun) checkRet(w *waiter) {
 	}
 	quiesce()
 	_, s := r.snap()
+	{
+		// a change of the live set starts a new rotation window (also when the set later returns to what it was)
+		x, y := append([]string(nil), sb0.List...), append([]string(nil), s.List...)
+		sort.Strings(x)
+		sort.Strings(y)
+		if fmt.Sprint(x) != fmt.Sprint(y) {
+			r.rrSet, r.rrPicks = "", nil
+		}
+	}
 	if cur && !s.Closed {
 		// a completed check of a current target rebuilds the list from the targets' liveness
 		alive := map[string]bool{}
@@ -249,7 +267,7 @@ func (r *lbRun) checkRet(w *waiter) {
 				al = append(al, a)
 			}
 			sort.Strings(al)
-			r.e.fail("C18-live-list-stale", fmt.Sprintf("after a detector check of %q returned, calls are scheduled over %v although the live targets are %v", addr, s.List, al), r.replay())
+			r.e.fail(r.e.Res.Property+"-live-list-stale", fmt.Sprintf("after a detector check of %q returned, calls are scheduled over %v although the live targets are %v", addr, s.List, al), r.replay())
 		}
 	}
 	ops := []string{fmt.Sprintf("LCheckRet %d %s %s %s", r.idx(addr), coqBool(cur), coqBool(ok), r.nats(s.List))}
@@ -375,6 +393,10 @@ func (r *lbRun) route() {
 		}
 		ops = append([]string{fmt.Sprintf("LRoute %d %s %d%%nat", r.idx(d), coqBool(probe), rnd)}, ops...)
 		r.emit(before, ops, saw, false, skip, fmt.Sprintf("Call -> %v %v", log, err))
+		// routing a call never reorders the list the rotation (and the least-time probes) walk over
+		if _, sa := r.snap(); len(log) == 1 && err == nil && fmt.Sprint(sa.List) != fmt.Sprint(sb.List) && len(sa.List) == len(sb.List) {
+			r.e.fail(r.e.Res.Property+"-rotation-list-reordered", fmt.Sprintf("a successful call changed the order of the live list from %v to %v: the rotation repeats and skips targets", sb.List, sa.List), r.replay())
+		}
 		// C17 oracles on the implementation's own snapshot
 		if len(log) == 1 && d == "" && len(sb.List) > 1 && sb.Fallback == 0 {
 			switch r.sched {
@@ -471,8 +493,12 @@ func runLB(work, prop string) {
 	scheds := []rpc.Scheduling{rpc.RoundRobinScheduling, rpc.RandomScheduling, rpc.LeastTimeScheduling}
 	for i := 0; i < n; i++ {
 		r := newLBRun(e, scheds[i%3])
-		if i%10 == 6 || (prop == "C18" && i%5 == 1) {
+		if i%10 == 6 || ((prop == "C18" || prop == "C17" || prop == "C16") && i%5 == 1) {
 			r.scriptSwap()
+		} else if i%10 == 8 || (prop == "C18" && i%5 == 2) {
+			r.scriptBlackout()
+		} else if prop == "C18" && i%5 == 3 {
+			r.scriptLastTarget()
 		} else if i%4 == 3 || (prop == "C17" && i%2 == 1) || prop == "C08" {
 			// many live targets: deep heap nodes, long rotations
 			r = newLBRunN(e, scheds[(i/2)%3], 6+e.Rng.Intn(4))
@@ -687,18 +713,21 @@ func (r *lbRun) scriptSwap() {
 	r.rt.health[a], r.rt.health[b] = true, false
 	r.rt.mu.Unlock()
 	r.trace = append(r.trace, "Flip "+a, "Flip "+b)
-	for k := 0; k < 8; k++ { // until a call has hit b and failed
+	bDead := false
+	for k := 0; k < 12 && !bDead; k++ { // until a call has hit b and failed
 		r.route()
 		_, s := r.snap()
-		dead := false
 		for _, t := range s.Targets {
 			if t.Address == b && !t.Alive {
-				dead = true
+				bDead = true
 			}
 		}
-		if dead {
-			break
+	}
+	if !bDead { // (random picks never reached b: this history does not get to the swap)
+		if !r.closed {
+			r.close()
 		}
+		return
 	}
 	// the recovered target's check completes first
 	for guard := 0; guard < 10; guard++ {
@@ -707,6 +736,7 @@ func (r *lbRun) scriptSwap() {
 			break
 		}
 	}
+	waitPings()
 	for guard := 0; guard < 10 && release(b); guard++ {
 	}
 	nlog := len(r.rt.log)
@@ -715,13 +745,162 @@ func (r *lbRun) scriptSwap() {
 	}
 	for _, x := range r.logSince(nlog) {
 		if x == b {
-			r.e.fail("C18-dead-target-keeps-traffic", fmt.Sprintf("calls are still sent to %q after it was found dead and %q had taken its place among the live targets", b, a), r.replay())
+			r.e.fail(r.e.Res.Property+"-dead-target-keeps-traffic", fmt.Sprintf("calls are still sent to %q after it was found dead and %q had taken its place among the live targets", b, a), r.replay())
 			break
 		}
 	}
 	if !r.closed {
 		r.close()
 	}
+}
+
+// scriptBlackout: every target goes away and is found dead, then the very same set comes back.
+func (r *lbRun) scriptBlackout() {
+	a, b := r.addrs[0], r.addrs[1]
+	r.rt.health[a], r.rt.health[b] = true, true
+	r.update([]string{a, b})
+	waitPings := func() {
+		deadline := time.Now().Add(400 * time.Millisecond)
+		for len(r.rt.pingGate.list()) == 0 && time.Now().Before(deadline) {
+			time.Sleep(2 * time.Millisecond)
+		}
+		r.settle()
+	}
+	drain := func(max int) {
+		for guard := 0; guard < max; guard++ {
+			waitPings()
+			ps := r.rt.pingGate.list()
+			if len(ps) == 0 {
+				return
+			}
+			r.checkRet(ps[0])
+		}
+	}
+	drain(6)
+	for round := 0; round < 2; round++ {
+		r.rt.mu.Lock()
+		r.rt.health[a], r.rt.health[b] = false, false
+		r.rt.mu.Unlock()
+		r.trace = append(r.trace, "Flip "+a, "Flip "+b)
+		for k := 0; k < 6; k++ { // calls fail and mark their targets dead
+			if _, s := r.snap(); len(s.List) == 0 || len(r.waiting) > 0 {
+				break
+			}
+			r.route()
+		}
+		drain(8) // the checks fail as well: nothing is live
+		r.rt.mu.Lock()
+		r.rt.health[a], r.rt.health[b] = true, true
+		r.rt.mu.Unlock()
+		r.trace = append(r.trace, "Flip "+a, "Flip "+b)
+		if len(r.waiting) < 2 {
+			r.route() // a caller that has to wait for a target
+		}
+		drain(8) // the same set comes back: the waiter is released, calls flow again
+		nlog := len(r.rt.log)
+		for k := 0; k < 3; k++ {
+			r.route()
+		}
+		if len(r.waiting) > 0 || len(r.logSince(nlog)) == 0 {
+			r.e.fail(r.e.Res.Property+"-no-recovery-after-blackout", fmt.Sprintf("every target had gone away and the same targets came back and were found live, yet calls still wait (%d waiting)", len(r.waiting)), r.replay())
+			break
+		}
+	}
+	if !r.closed {
+		r.close()
+	}
+}
+
+// scriptLastTarget: the last live target fails through a call that was scheduled while two targets were
+// live and fails later; nothing is live; then that same target comes back.  (A call held in flight breaks the
+// one-operation-one-step shape, so this history is judged by its oracle only.)
+func (r *lbRun) scriptLastTarget() {
+	a, b := r.addrs[0], r.addrs[1]
+	pid := r.e.Res.Property
+	r.rt.health[a], r.rt.health[b] = true, true
+	r.update([]string{a, b})
+	waitPings := func() {
+		deadline := time.Now().Add(400 * time.Millisecond)
+		for len(r.rt.pingGate.list()) == 0 && time.Now().Before(deadline) {
+			time.Sleep(2 * time.Millisecond)
+		}
+		quiesce()
+	}
+	release := func(max int) {
+		for guard := 0; guard < max; guard++ {
+			waitPings()
+			ps := r.rt.pingGate.list()
+			if len(ps) == 0 {
+				return
+			}
+			w := ps[0]
+			if r.rt.up(w.tag.(string)) {
+				r.rt.pingGate.release(w, nil)
+			} else {
+				r.rt.pingGate.release(w, rpc.ErrDial)
+			}
+			quiesce()
+		}
+	}
+	live := func() []string { return r.c.VerifSnapshot().List }
+	release(6)
+	if len(live()) != 2 {
+		return
+	}
+	// a call to a, scheduled now, stays in flight
+	r.rt.mu.Lock()
+	r.rt.hold[a] = true
+	r.rt.mu.Unlock()
+	heldDone := make(chan error, 4)
+	for k := 0; k < 4 && len(r.rt.callGate.list()) == 0; k++ {
+		go func() { var x, y []byte; heldDone <- r.c.Call("S.M", &x, &y) }()
+		quiesce()
+	}
+	if len(r.rt.callGate.list()) == 0 {
+		return
+	}
+	r.rt.mu.Lock()
+	r.rt.hold[a] = false
+	r.rt.health[b] = false
+	r.rt.mu.Unlock()
+	// b is found dead: calls to it fail, its check fails
+	for k := 0; k < 6 && len(live()) == 2; k++ {
+		var x, y []byte
+		r.c.Call("S.M", &x, &y)
+		release(4)
+	}
+	// now a goes away too, and the call in flight on it fails
+	r.rt.mu.Lock()
+	r.rt.health[a] = false
+	r.rt.mu.Unlock()
+	for _, w := range r.rt.callGate.list() {
+		r.rt.callGate.release(w, rpc.ErrDial)
+	}
+	quiesce()
+	release(6)
+	r.trace = append(r.trace, "both targets up", "call held on "+a, b+" down and found dead", a+" down, held call fails", "nothing live: "+fmt.Sprint(live()))
+	if len(live()) != 0 {
+		return
+	}
+	// a comes back
+	r.rt.mu.Lock()
+	r.rt.health[a] = true
+	r.rt.mu.Unlock()
+	got := make(chan error, 1)
+	go func() { var x, y []byte; got <- r.c.Call("S.M", &x, &y) }()
+	quiesce()
+	release(8)
+	select {
+	case err := <-got:
+		if err != nil {
+			r.e.fail(pid+"-no-recovery-after-blackout", fmt.Sprintf("the last live target failed and came back; a caller that waited for it got %v", err), r.replay())
+		}
+	case <-time.After(3 * time.Second):
+		r.e.fail(pid+"-no-recovery-after-blackout", fmt.Sprintf("the last live target (%s) failed and came back and was probed live, yet a waiting caller was not released within 3s (live list %v)", a, live()), r.replay())
+	}
+	r.e.count("last-target", "lt")
+	r.c.Close()
+	r.closed = true
 }
 
 func (r *lbRun) anyDead() bool {
